@@ -1,4 +1,4 @@
-(* C01, end to end over the reals: EVERY answered near-earth-normal propagation with semi-major axis <= 2 earth radii and
+(* C01, end to end over the reals: EVERY answered near-earth-normal propagation with semi-major axis <= 4 earth radii and
    eL^2 <= 4/25 returns a position within 1 mm, and a velocity within 1 um/s, per coordinate, of the report's formulas
    evaluated at the unique exact solution of Kepler's equation.  No hypothesis about the Newton loop is left: that the
    loop meets its stopping rule (by its sixth test) is P_Sgp4Newton, what each exit returns is P_Sgp4Exits / P_Sgp4SmallE,
@@ -42,7 +42,7 @@ Theorem answered_position_accuracy e0 i r w m n b ts j :
   gen_nn1_prop_outcome e0 i r w m n b ts = PropOk j ->
   let El := E e0 i r w m n b in let T := mkT false ts in let ec := ecl e0 i r w m n b ts in
   let Ucap := fmodR (U El T ec) (2 * PI) in
-  a El T <= 2 -> eL2 El T ec <= 4 / 25 ->
+  a El T <= 4 -> eL2 El T ec <= 4 / 25 ->
   let '(radius, theta, eqinc, ascn, rdk, rfdk) := nn1_returned j e0 i r w m n b ts in
   exists Es, kepler_residual El T ec Ucap Es = 0 /\
     (forall Es', kepler_residual El T ec Ucap Es' = 0 -> Es' = Es) /\
@@ -101,7 +101,7 @@ Theorem answered_position_accuracy_small_e e0 i r w m n b ts j :
   gen_nn3_prop_outcome e0 i r w m n b ts = PropOk j ->
   let El := E e0 i r w m n b in let T := mkT true ts in let ec := ecl3 e0 i r w m n b ts in
   let Ucap := fmodR (U El T ec) (2 * PI) in
-  a El T <= 2 -> eL2 El T ec <= 4 / 25 ->
+  a El T <= 4 -> eL2 El T ec <= 4 / 25 ->
   let '(radius, theta, eqinc, ascn, rdk, rfdk) := nn3_returned j e0 i r w m n b ts in
   exists Es, kepler_residual El T ec Ucap Es = 0 /\
     (forall Es', kepler_residual El T ec Ucap Es' = 0 -> Es' = Es) /\
